@@ -86,6 +86,47 @@ type Odd struct {
 
 func (Odd) Kind() string { return "odd" }
 
+// Structs with embedded fields: the promoted field names (F, BL, BP, BA of Base; Q of hid)
+// are path elements of their own, and so are the embedded fields (Base, EmbP).
+//
+//	EmbV embeds Base by value, EmbP through a pointer, EmbD embeds *EmbP (two embedded pointers
+//	before F), EmbH embeds a pointer to an unexported struct type (its promoted field Q is exported,
+//	the pointer itself cannot be set from outside the package).
+type Base struct {
+	F  string
+	BL Leaf
+	BP *Leaf
+	BA any
+}
+
+type EmbV struct {
+	Base
+	G string
+}
+
+type EmbP struct {
+	*Base
+	G string
+}
+
+func (*EmbP) Kind() string { return "embp" }
+
+type EmbD struct {
+	*EmbP
+	H  int
+	ME map[string]EmbP
+}
+
+type hid struct {
+	Q  string
+	QL Leaf
+}
+
+type EmbH struct {
+	*hid
+	X string
+}
+
 var (
 	tString = reflect.TypeOf("")
 	tInt    = reflect.TypeOf(0)
@@ -105,15 +146,28 @@ var (
 	tMapPM  = reflect.TypeOf(map[string]*Mid{})
 	tNoS    = reflect.TypeOf(NoS{})
 	tOdd    = reflect.TypeOf(Odd{})
+	tBase   = reflect.TypeOf(Base{})
+	tEmbV   = reflect.TypeOf(EmbV{})
+	tEmbP   = reflect.TypeOf(EmbP{})
+	tPEmbP  = reflect.TypeOf(&EmbP{})
+	tEmbD   = reflect.TypeOf(EmbD{})
+	tPEmbD  = reflect.TypeOf(&EmbD{})
+	tEmbH   = reflect.TypeOf(EmbH{})
+	tMapEP  = reflect.TypeOf(map[string]EmbP{})
 )
 
 // declared predecessor output types (sources) and successor input types (targets)
-var srcTypes = []reflect.Type{tTop, tPTop, tMid, tPMid, tLeaf, tPLeaf, tMapAny, tMapStr, tMapL, tMapPL, tMapM, tMapPM, tString, tInt}
-var tgtTypes = []reflect.Type{tTop, tPTop, tMid, tPMid, tLeaf, tPLeaf, tMapAny, tMapStr, tMapL, tMapPL, tMapM, tMapPM, tAny, tString}
+var srcTypes = []reflect.Type{tTop, tPTop, tMid, tPMid, tLeaf, tPLeaf, tMapAny, tMapStr, tMapL, tMapPL, tMapM, tMapPM,
+	tEmbV, tEmbP, tPEmbP, tEmbD, tPEmbD, tEmbH, tMapEP, tString, tInt}
+var tgtTypes = []reflect.Type{tTop, tPTop, tMid, tPMid, tLeaf, tPLeaf, tMapAny, tMapStr, tMapL, tMapPL, tMapM, tMapPM,
+	tEmbV, tEmbP, tPEmbP, tEmbD, tPEmbD, tEmbH, tMapEP, tAny, tString}
+
+// embTypes: the declared types with embedded fields (picked more often than their share of the universe)
+var embTypes = []reflect.Type{tEmbV, tEmbP, tPEmbP, tEmbD, tPEmbD, tEmbH, tMapEP}
 
 // pairs instantiated as Workflow[S, T] (START is a typed predecessor and END the successor)
-var coreSrc = []reflect.Type{tTop, tPTop, tMid, tMapAny, tLeaf, tMapM}
-var coreTgt = []reflect.Type{tTop, tPMid, tMid, tMapAny, tAny, tMapL}
+var coreSrc = []reflect.Type{tTop, tPTop, tMid, tMapAny, tLeaf, tMapM, tEmbP, tEmbD}
+var coreTgt = []reflect.Type{tTop, tPMid, tMid, tMapAny, tAny, tMapL, tEmbP, tPEmbD}
 
 func typeName(t reflect.Type) string {
 	if t == nil {
@@ -139,6 +193,7 @@ type runHandle struct {
 	invoke    func(ctx context.Context, in any) (any, error)
 	stream    func(ctx context.Context, in any) ([]any, error)
 	transform func(ctx context.Context, chunks []any) ([]any, error)
+	collect   func(ctx context.Context, chunks []any) (any, error)
 }
 
 func drain[T any](sr *schema.StreamReader[T]) ([]any, error) {
@@ -193,6 +248,17 @@ func newWF[I, O any]() *wfHandle {
 				return nil, err
 			}
 			return drain(sr)
+		}
+		rh.collect = func(ctx context.Context, chunks []any) (any, error) {
+			xs := make([]I, len(chunks))
+			for i, c := range chunks {
+				xs[i] = c.(I)
+			}
+			o, err := r.Collect(ctx, schema.StreamReaderFromArray(xs))
+			if err != nil {
+				return nil, err
+			}
+			return o, nil
 		}
 		return rh, nil
 	}
@@ -321,6 +387,66 @@ func mkSucc[T any](rec *succRec) *compose.Lambda {
 	return l
 }
 
+// mkSuccInv[T] builds a successor that only has the Invoke form: in a streaming run the
+// framework has to assemble one value of type T from the chunks meant for it.
+func mkSuccInv[T any](rec *succRec) *compose.Lambda {
+	return compose.InvokableLambda(func(ctx context.Context, in T) (string, error) {
+		rec.calls++
+		tr := toTree(reflect.ValueOf(&in).Elem())
+		rec.trees = append(rec.trees, tr)
+		rec.values = append(rec.values, tr.String())
+		return tr.String(), nil
+	})
+}
+
+// mkGate builds the branch below the gate node (output type string) that selects exactly the
+// nodes of `picked` among `ends`. form 0: NewGraphMultiBranch, 1: NewStreamGraphMultiBranch,
+// 2: NewGraphBranch, 3: NewStreamGraphBranch (the last two need exactly one picked node).
+func mkGate(form int, picked []string, ends []string) *compose.GraphBranch {
+	endSet := map[string]bool{}
+	for _, e := range ends {
+		endSet[e] = true
+	}
+	sel := func() map[string]bool {
+		m := map[string]bool{}
+		for _, k := range picked {
+			m[k] = true
+		}
+		return m
+	}
+	readAll := func(in *schema.StreamReader[string]) error {
+		defer in.Close()
+		for {
+			_, err := in.Recv()
+			if err == io.EOF {
+				return nil
+			}
+			if err != nil {
+				return err
+			}
+		}
+	}
+	switch form {
+	case 1:
+		return compose.NewStreamGraphMultiBranch(func(ctx context.Context, in *schema.StreamReader[string]) (map[string]bool, error) {
+			if err := readAll(in); err != nil {
+				return nil, err
+			}
+			return sel(), nil
+		}, endSet)
+	case 2:
+		return compose.NewGraphBranch(func(ctx context.Context, in string) (string, error) { return picked[0], nil }, endSet)
+	case 3:
+		return compose.NewStreamGraphBranch(func(ctx context.Context, in *schema.StreamReader[string]) (string, error) {
+			if err := readAll(in); err != nil {
+				return "", err
+			}
+			return picked[0], nil
+		}, endSet)
+	}
+	return compose.NewGraphMultiBranch(func(ctx context.Context, in string) (map[string]bool, error) { return sel(), nil }, endSet)
+}
+
 var (
 	wfFrom = map[reflect.Type]func() *wfHandle{}                          // Workflow[S, string]
 	wfTo   = map[reflect.Type]func() *wfHandle{}                          // Workflow[string, T]
@@ -328,6 +454,7 @@ var (
 	predOf = map[reflect.Type]func(p *predNode) *compose.Lambda{}         // any -> S
 	brOf   = map[reflect.Type]func(to, alt string) *compose.GraphBranch{} // branch below a node with output S
 	succOf = map[reflect.Type]func(r *succRec) *compose.Lambda{}          // T -> string
+	sinvOf = map[reflect.Type]func(r *succRec) *compose.Lambda{}          // T -> string, Invoke form only
 )
 
 func rt[T any]() reflect.Type { return reflect.TypeOf((*T)(nil)).Elem() }
@@ -341,6 +468,7 @@ func regSrc[S any]() {
 func regTgt[T any]() {
 	wfTo[rt[T]()] = newWF[string, T]
 	succOf[rt[T]()] = mkSucc[T]
+	sinvOf[rt[T]()] = mkSuccInv[T]
 }
 
 func regPair[S, T any]() { wfPair[[2]reflect.Type{rt[S](), rt[T]()}] = newWF[S, T] }
@@ -352,6 +480,8 @@ func regRow[S any]() {
 	regPair[S, map[string]any]()
 	regPair[S, any]()
 	regPair[S, map[string]Leaf]()
+	regPair[S, EmbP]()
+	regPair[S, *EmbD]()
 }
 
 func init() {
@@ -367,6 +497,13 @@ func init() {
 	regSrc[map[string]*Leaf]()
 	regSrc[map[string]Mid]()
 	regSrc[map[string]*Mid]()
+	regSrc[EmbV]()
+	regSrc[EmbP]()
+	regSrc[*EmbP]()
+	regSrc[EmbD]()
+	regSrc[*EmbD]()
+	regSrc[EmbH]()
+	regSrc[map[string]EmbP]()
 	regSrc[string]()
 	regSrc[int]()
 
@@ -382,6 +519,13 @@ func init() {
 	regTgt[map[string]*Leaf]()
 	regTgt[map[string]Mid]()
 	regTgt[map[string]*Mid]()
+	regTgt[EmbV]()
+	regTgt[EmbP]()
+	regTgt[*EmbP]()
+	regTgt[EmbD]()
+	regTgt[*EmbD]()
+	regTgt[EmbH]()
+	regTgt[map[string]EmbP]()
 	regTgt[any]()
 	regTgt[string]()
 
@@ -391,6 +535,8 @@ func init() {
 	regRow[map[string]any]()
 	regRow[Leaf]()
 	regRow[map[string]Mid]()
+	regRow[EmbP]()
+	regRow[EmbD]()
 
 	for _, s := range srcTypes {
 		if wfFrom[s] == nil || predOf[s] == nil {
